@@ -13,11 +13,20 @@ from mc.spec import universe as U
 LEVEL = "exploration"
 
 
+def mixed_scalar_templates():
+    """sums in which only SOME terms carry a scalar variable (seed C01-7: the scalar factors of a term leaked into the
+    following scalar-less term); local to C01 so that the shared universe slices of the other checks do not shift"""
+    E, T, V, times = U.E, U.T, U.V, U.times
+    return [("S6", E("Z", ["m"], times(V("a"), T("A", "m")), times(T("B", "m")))),
+            ("S7", E("Z", ["m"], times(V("a"), T("A", "m")), times(T("B", "m")), times(V("c"), T("C", "m")))),
+            ("S8", E("Z", ["m"], times(V("a"), T("A", "k", "m"), T("B", "k", "m")), times(T("C", "k", "m"))))]
+
+
 def configs(ctx):
     work = []
     values = ctx.pick((1, 2), (1, 2, 3))
     max_cells = ctx.pick(8, 12)
-    for tag, base in U.templates(ctx.tier):
+    for tag, base in list(U.templates(ctx.tier)) + mixed_scalar_templates():
         if tag == "P1ij" or (tag in ("P8b", "EW3") and ctx.quick):
             continue
         perms = U.operand_perms(base)
